@@ -1522,6 +1522,26 @@ impl JsObject {
 
     /// Get a property, searching the prototype chain
     pub fn get_property(&self, key: &PropertyKey) -> Option<JsValue> {
+        if let Some(value) = self.own_property_value(key) {
+            return Some(value);
+        }
+        // Walk the prototype chain with a loop: it can be arbitrarily long
+        let mut current = self.prototype.as_ref().map(|p| p.cheap_clone());
+        while let Some(obj) = current {
+            let obj_ref = obj.borrow();
+            if let Some(value) = obj_ref.own_property_value(key) {
+                return Some(value);
+            }
+            let next = obj_ref.prototype.as_ref().map(|p| p.cheap_clone());
+            drop(obj_ref);
+            current = next;
+        }
+        None
+    }
+
+    /// The value of a property of this object itself (own and built-in properties, the
+    /// prototype chain is not consulted)
+    fn own_property_value(&self, key: &PropertyKey) -> Option<JsValue> {
         // The characters of a String wrapper are own index properties
         if let (ExoticObject::StringObj(text), PropertyKey::Index(idx)) = (&self.exotic, key)
             && let Some(ch) = text.as_str().chars().nth(*idx as usize)
@@ -1663,16 +1683,36 @@ impl JsObject {
             return Some(prop.value.clone());
         }
 
-        if let Some(ref proto) = self.prototype {
-            return proto.borrow().get_property(key);
-        }
-
         None
     }
 
     /// Get a property descriptor, searching the prototype chain
     /// Returns (property, found_in_prototype)
     pub fn get_property_descriptor(&self, key: &PropertyKey) -> Option<(Property, bool)> {
+        if let Some(prop) = self.own_property_descriptor(key) {
+            return Some((prop, false));
+        }
+        // Walk the prototype chain with a loop: it can be arbitrarily long
+        let mut current = self.prototype.as_ref().map(|p| p.cheap_clone());
+        while let Some(obj) = current {
+            let obj_ref = obj.borrow();
+            if let Some(prop) = obj_ref.own_property_descriptor(key) {
+                return Some((prop, true));
+            }
+            let next = obj_ref.prototype.as_ref().map(|p| p.cheap_clone());
+            drop(obj_ref);
+            current = next;
+        }
+        None
+    }
+
+    /// The descriptor of a property of this object itself (the prototype chain is not consulted)
+    fn own_property_descriptor(&self, key: &PropertyKey) -> Option<Property> {
+        self.own_property_descriptor_flagged(key)
+            .map(|(prop, _)| prop)
+    }
+
+    fn own_property_descriptor_flagged(&self, key: &PropertyKey) -> Option<(Property, bool)> {
         // For arrays, handle index access and length from elements Vec
         if let ExoticObject::Array { ref elements } = self.exotic {
             match key {
@@ -1840,12 +1880,6 @@ impl JsObject {
 
         if let Some(prop) = self.properties.get(key) {
             return Some((prop.clone(), false));
-        }
-
-        if let Some(ref proto) = self.prototype
-            && let Some((prop, _)) = proto.borrow().get_property_descriptor(key)
-        {
-            return Some((prop, true));
         }
 
         None
